@@ -13,6 +13,11 @@ THEOREMS = [
     "Ural.Props.C07.normHost_eq_normalizeHostname",
     "Ural.Props.C07.normalized_netloc",
     "Ural.Props.C07.normalized_hostname_agrees",
+    "Ural.Props.C07.normalized_hostname_agrees_model",
+    "Ural.Props.C07.hostOfModel_scheme_relative",
+    "Ural.Props.C07.protoLen_eq",
+    "Ural.Props.C07.same_host_model",
+    "Ural.Props.C07.cleanHost_of_model",
     "Ural.Props.C07.edge_whitespace_witness",
     "Ural.Props.C07.fingerprinted_hostname_agrees",
     "Ural.Props.C07.bare_hostname_parser",
@@ -454,6 +459,13 @@ def url_ops(case):
     if _helper_model_ok(u, inf):
         add("gnh_model", {"f": "c07_helper_model", "fn": "gnh", "url": u, "normalize_amp": amp, "infer_redirection": inf,
                           "puny": nc._host_puny(raw_host(u, inf) or "")})
+    # the modelled parser on the string normalize_url parses (hmodel of normalized_hostname_agrees_model)
+    try:
+        fin = nc.prepare(u, nc.full_opts({"infer_redirection": inf}))["final"]
+        if parser_in_model(fin):
+            add("model_host", {"f": "c07_model_host", "s": fin})
+    except Exception:  # noqa
+        pass
     # hypotheses of the theorems, evaluated on this case
     add("assume", {"f": "c07_true"})
     _tags[_key(case)] = tags
@@ -572,6 +584,14 @@ def url_impl(case):
 
             r = _g(get_normalized_hostname, u, normalize_amp=amp, infer_redirection=inf)
             out.append(lib.pyerr(r.e) if isinstance(r, _Exc) else [r])
+        elif tag == "model_host":
+            from urllib.parse import urlsplit
+
+            fin = nc.prepare(u, nc.full_opts({"infer_redirection": inf}))["final"]
+            try:
+                out.append([_none(urlsplit(fin).hostname)])
+            except ValueError:
+                out.append([None])
         elif tag == "assume":
             out.append(bool(assumptions_hold(case)))
     return out
@@ -634,7 +654,7 @@ def canon(op, out):
     f = op.get("f")
     if f in ("get_normalized_hostname", "get_fingerprinted_hostname") and isinstance(out, list) and len(out) == 2:
         return [out[0], out[1] or None]
-    if f in ("c07_host", "c07_helper_model") and isinstance(out, list) and len(out) == 1:
+    if f in ("c07_host", "c07_helper_model", "c07_model_host") and isinstance(out, list) and len(out) == 1:
         return [out[0] or None]
     return out
 
